@@ -418,6 +418,28 @@ func checkPluginRecipientArms(p *Program, r *Result) {
 	compareProtocolArms(r, proto, wwl, got, "recipient")
 }
 
+// checkRecipientPhase1 (shared with C11): the messages the recipient machine sends before it
+// listens, among them extension-labels, without which a plugin declares no labels.
+func checkRecipientPhase1(p *Program, r *Result) {
+	wwl := r.anchor(pkgPlugin, "Recipient", "WrapWithLabels")
+	if wwl == nil {
+		return
+	}
+	proto := loadProtocol(r)
+	if proto == nil {
+		return
+	}
+	_, loopR, _ := stateMachineArms(p, wwl)
+	if loopR == nil {
+		r.Unk(pkgPlugin, "read-loops", "", "read loop calling ClientUI.readStanza not found")
+		return
+	}
+	seq, okErr := phase1Seq(p, wwl, loopR)
+	got := strings.Join(seq, " ; ")
+	want := strings.Join(proto["phase1"]["recipient"], " ; ")
+	r.Check(got == want && okErr, wwl.String(), "phase1", "", got, "phase-1 messages differ from the protocol table or a write error is not returned\n   got  "+got+"\n   want "+want)
+}
+
 func runC16(p *Program, r *Result) {
 	wwl := r.anchor(pkgPlugin, "Recipient", "WrapWithLabels")
 	unw := r.anchor(pkgPlugin, "Identity", "Unwrap")
@@ -463,11 +485,29 @@ func runC16(p *Program, r *Result) {
 	{
 		tb := p.TB(wwl)
 		ok := false
+		// the type of the first message: the argument of the first writeStanza, or the Type field
+		// of the first stanza of the list that is sent
+		var cands []*ssa.Phi
 		for _, c := range callsTo(wwl, fnWriteStanza) {
-			ph, isPhi := c.Common().Args[1].(*ssa.Phi)
-			if !isPhi {
-				continue
+			if ph, isPhi := c.Common().Args[1].(*ssa.Phi); isPhi {
+				cands = append(cands, ph)
 			}
+		}
+		if len(cands) == 0 {
+			for _, b := range wwl.Blocks {
+				for _, in := range b.Instrs {
+					st, isSt := in.(*ssa.Store)
+					if !isSt {
+						continue
+					}
+					fa, isFA := st.Addr.(*ssa.FieldAddr)
+					if ph, isPhi := st.Val.(*ssa.Phi); isFA && isPhi && fieldName(fa.X.Type(), fa.Field) == "Type" && strings.HasSuffix(structTypeName(fa.X.Type()), "format.Stanza") {
+						cands = append(cands, ph)
+					}
+				}
+			}
+		}
+		for _, ph := range cands {
 			good := len(ph.Edges) == 2
 			for k, e := range ph.Edges {
 				cst, isC := e.(*ssa.Const)
@@ -688,12 +728,106 @@ func phase1Seq(p *Program, fn *ssa.Function, loop *natLoop) ([]string, bool) {
 	var seq []string
 	okErr := true
 	for _, c := range writes {
-		seq = append(seq, writeLabel(tb, nil, c))
 		if _, ok := errCheckedWithExit(p, c); !ok {
 			okErr = false
 		}
+		// the messages collected in a list and marshalled by one loop over it: the list's
+		// elements, in order, are the messages
+		if calleeName(c.Common()) == fnStanzaMarshal {
+			if t := tb.Term(c.Common().Args[0]); t.Op == "Elem" && len(t.Args) == 2 && strings.Contains(t.Args[1].String(), "RangeIdx#") {
+				if elems, ok := expandStanzaList(t.Args[0], 0); ok && len(elems) > 0 {
+					for _, e := range elems {
+						seq = append(seq, stanzaLabel(e))
+					}
+					continue
+				}
+			}
+		}
+		seq = append(seq, writeLabel(tb, nil, c))
+	}
+	for i := range seq {
+		seq[i] = greaseRe.ReplaceAllString(seq[i], `fmt.Sprintf("grease-%x", List($1))`)
 	}
 	return seq, okErr
+}
+
+// "grease-" + strconv.FormatInt(n, 16) is fmt.Sprintf("grease-%x", n) for the non-negative n of
+// math/rand
+var greaseRe = regexp.MustCompile(`\("grease-" \+ strconv\.Format(?:Int|Uint)\((MATHRAND\.[A-Za-z0-9]+\(\)), 16\)\)`)
+
+// expandStanzaList: the elements of a slice of stanzas given as a literal, a concatenation, or
+// an accumulator that starts from a list and gets one element appended per iteration of a loop
+// (that element stands once, as the write inside such a loop does in the call-by-call form).
+func expandStanzaList(t *Term, d int) ([]*Term, bool) {
+	if t == nil || d > 4 {
+		return nil, false
+	}
+	switch t.Op {
+	case "List":
+		return t.Args, true
+	case "Concat":
+		var out []*Term
+		for _, a := range t.Args {
+			if a.Op == "Loop" {
+				continue
+			}
+			es, ok := expandStanzaList(a, d+1)
+			if !ok {
+				return nil, false
+			}
+			out = append(out, es...)
+		}
+		return out, true
+	case "Phi":
+		// accumulator: Phi(Concat(Loop(), List(s)), Init) in either order
+		var init, step *Term
+		for _, a := range t.Args {
+			if a.Op == "Concat" && len(a.Args) == 2 && a.Args[0].Op == "Loop" {
+				step = a.Args[1]
+			} else {
+				init = a
+			}
+		}
+		if step == nil || init == nil || len(t.Args) != 2 {
+			return nil, false
+		}
+		a, ok1 := expandStanzaList(init, d+1)
+		b, ok2 := expandStanzaList(step, d+1)
+		if !ok1 || !ok2 {
+			return nil, false
+		}
+		return append(append([]*Term(nil), a...), b...), true
+	case "Nil":
+		return nil, true
+	}
+	return nil, false
+}
+
+// stanzaLabel renders a stanza value the way the write helpers that send it are labelled.
+func stanzaLabel(e *Term) string {
+	if e == nil || e.Op != "Struct" {
+		return "M(" + short(e.String()) + ")"
+	}
+	kv := map[string]*Term{}
+	for _, a := range e.Args {
+		if a.Op == "KV" && len(a.Args) == 1 {
+			kv[a.S] = a.Args[0]
+		}
+	}
+	typ, args, body := kv["Type"], kv["Args"], kv["Body"]
+	if typ == nil {
+		return "M(" + short(e.String()) + ")"
+	}
+	ts := short(typ.String())
+	switch {
+	case args != nil && body != nil:
+		return "M(" + short(e.String()) + ")"
+	case body != nil:
+		return "WB(" + ts + "; " + short(body.String()) + ")"
+	case args != nil:
+		return "W(" + ts + " " + short(args.String()) + ")"
+	}
+	return "W(" + ts + ")"
 }
 
 func dumpProtocol(p *Program, wwl, unw, hnd *ssa.Function, gotR, gotI map[string][]string, loopR, loopI *natLoop) {
